@@ -38,6 +38,19 @@ def handleC12 (op : String) (input impl : Json) : Except String Json := do
       | .ok r => canonRepo r == canonRepo after
       | _ => false
     return reply mj agree viol
+  | "gc-cli" =>
+    -- `wrgl gc` with a freshly opened transaction: its staged ref and everything it reaches survive,
+    -- the orphaned commit goes (3 commits before: branch, orphan, staged; 2 after)
+    if resClass impl == "panic" then return reply Json.null false ["no-panic"]
+    if resClass impl != "ok" then return reply Json.null false ["unexpected-error"]
+    let v := fldD impl "val" Json.null
+    let n := fun (k : String) => (fldD v k (jNat 0)).getNat?.toOption.getD 0
+    let b := fun (k : String) => (fldD v k (Json.bool false)).getBool?.toOption.getD false
+    let viol :=
+      (if n "txRefsBefore" == 1 && b "stagedUsableBefore" && n "commitsBefore" == 3 then [] else ["harness-setup-failed"]) ++
+      (if n "txRefsAfter" == 1 && b "stagedUsableAfter" then [] else ["reachable-from-a-ref-is-kept"]) ++
+      (if n "commitsAfter" == 2 then [] else ["unreachable-is-removed-and-nothing-else"])
+    return reply (Json.mkObj [("commitsAfter", jNat 2), ("txRefsAfter", jNat 1)]) viol.isEmpty viol
   | _ => throw s!"unknown op {op}"
 
 end Wrgl.Drv
